@@ -167,8 +167,10 @@ class Runtime:
         try:
             if isinstance(cur, tuple) and len(cur) == 2 and isinstance(cur[1], (set, frozenset)):
                 # the set is tagged with the flow that owns it: ask the library which set this flow uses
+                # -- inside a throw-away copy of the context, so that observing never creates or replaces the set of
+                # the current flow (the library's getter does that as a side effect)
                 getter = getattr(chk, "_get_in_progress", None)
-                cur = getter() if getter is not None else cur[1]
+                cur = contextvars.copy_context().run(getter) if getter is not None else cur[1]
             out = []
             for x in cur:
                 if isinstance(x, tuple) and x:
